@@ -3,6 +3,8 @@ import re
 from rulelib import *
 from callgraph import CallGraph
 
+THOROUGH_CFGS = ('min_none', 'min_rten', 'min_onnx')   # reduced-feature builds of the rten crate (thorough tier)
+
 EXPLANATION = (
     "Model::run/partial_run take &self, so concurrent calls can only communicate through interior-mutable state "
     "reachable from &Model and through statics. (1) Type walk from rten::model::Model through every field type, generic "
